@@ -21,23 +21,40 @@ HOMES = ['function', 'bridge', 'operation', 'attribute']
 # static description of the host model (names, declared types)
 # ---------------------------------------------------------------------------
 
-# class -> ordered attributes (name, declared type, kind)   kind: base | derived | ref
+# user data types (S_UDT), global like the enumerations: name -> the type it is defined over (R18) -- a core type, or another
+# user data type (Tick is two levels above integer).  A value declared with one of them has THAT type, not the core type
+# underneath: attribute and parameter reads and invocation values carry the declared type, and so does the transient first
+# assigned such a value (round 8 of the seeds for C06: the first assignment unwrapped the type down to the core type)
+USER_TYPES = [('Stamp', 'integer'), ('Label', 'string'), ('Tick', 'Stamp')]
+# class -> ordered attributes (name, declared type, kind)   kind: base | derived | ref.  A.When and B.When share their name,
+# not their type
 CLASSES = {
     'A': [('Id', 'unique_id', 'base'), ('Flag', 'boolean', 'base'), ('Num', 'integer', 'base'),
           ('Rate', 'real', 'base'), ('Name', 'string', 'base'), ('Col', 'Color', 'base'),
-          ('Der', 'integer', 'derived')],
-    'B': [('Id', 'unique_id', 'base'), ('A_Id', 'unique_id', 'ref'), ('Num', 'integer', 'base')],
+          ('Der', 'integer', 'derived'), ('When', 'Stamp', 'base'), ('Tag', 'Label', 'base'), ('Beat', 'Tick', 'base')],
+    'B': [('Id', 'unique_id', 'base'), ('A_Id', 'unique_id', 'ref'), ('Num', 'integer', 'base'), ('When', 'Tick', 'base')],
     'C': [('Id', 'unique_id', 'base')],
 }
-# callable elements: name -> (return type, [(parameter, type)])
+# callable elements: name -> (return type, [(parameter, type)]).  The function, bridge and operation HOMES are main, relay and
+# run: the parameters of f, b and op followed by parameters declared with user data types (the programs call f, b and op with
+# the parameter lists they always had)
 FUNCTIONS = {'f': ('integer', [('x', 'integer'), ('y', 'real')]),
              'h': ('integer', [('x', 'integer')]),
-             'g': ('void', [])}
+             'g': ('void', []),
+             'main': ('integer', [('x', 'integer'), ('y', 'real'), ('w', 'Stamp'), ('l', 'Label')]),
+             'stamp': ('Stamp', [('w', 'Stamp')])}
 BRIDGES = {'b': ('integer', [('p', 'integer'), ('q', 'string')]),
-           'n': ('void', [])}
+           'n': ('void', []),
+           'relay': ('integer', [('p', 'integer'), ('q', 'string'), ('w', 'Stamp'), ('l', 'Label')]),
+           'title': ('Label', [('l', 'Label')])}
 OPERATIONS = {'op': ('integer', True, [('q', 'integer'), ('r', 'boolean')]),     # instance based
               'cop': ('integer', False, []),                                      # class based
-              'cop2': ('integer', False, [('k', 'integer'), ('s', 'string')])}    # class based, with parameters
+              'cop2': ('integer', False, [('k', 'integer'), ('s', 'string')]),    # class based, with parameters
+              'run': ('integer', True, [('q', 'integer'), ('r', 'boolean'), ('w', 'Stamp'), ('k', 'Tick')]),
+              'mark': ('Stamp', True, []),                                        # instance based, returns a user data type
+              'tick': ('Tick', False, [])}                                        # class based, returns a two-level one
+OPERATION_ORDER = ['op', 'cop', 'cop2', 'run', 'mark', 'tick']                    # R125
+HOME_CALLABLE = {'function': 'main', 'bridge': 'relay', 'operation': 'run'}
 EE = 'EE'
 ENUM = ('Color', ['Red', 'Green', 'Blue'])
 CONSTANT = ('K', 'TEN', 'integer', '10')
@@ -77,8 +94,8 @@ STEPS['A', 3, 'C', None] = True
 STEPS['B', 3, 'C', None] = False
 
 # parameters of each home, in declaration order
-HOME_PARAMS = {'function': FUNCTIONS['f'][1], 'bridge': BRIDGES['b'][1],
-               'operation': OPERATIONS['op'][2], 'attribute': []}
+HOME_PARAMS = {'function': FUNCTIONS[HOME_CALLABLE['function']][1], 'bridge': BRIDGES[HOME_CALLABLE['bridge']][1],
+               'operation': OPERATIONS[HOME_CALLABLE['operation']][2], 'attribute': []}
 HOME_HAS_SELF = {'function': False, 'bridge': False, 'operation': True, 'attribute': True}
 
 
@@ -111,7 +128,16 @@ def class_attrs(kl, variant=None):
     '''Ordered attributes (name, declared type, kind) of the class in the host of the given variant.'''
     return CLASSES[kl] + VARIANT_ATTRS.get(variant, {}).get(kl, [])
 
-TWIN_RETYPE = {'integer': 'string', 'string': 'boolean', 'boolean': 'real', 'real': 'integer', 'Color': 'Mode'}
+TWIN_RETYPE = {'integer': 'string', 'string': 'boolean', 'boolean': 'real', 'real': 'integer', 'Color': 'Mode',
+               'Stamp': 'Label', 'Label': 'Tick', 'Tick': 'Stamp'}
+
+
+def base_t(t):
+    '''The core type underneath a user data type (any other type: itself).'''
+    d = dict(USER_TYPES)
+    while t in d:
+        t = d[t]
+    return t
 
 
 def loader():
@@ -168,6 +194,13 @@ def build_host(m, variant=None):
             s_udt = m.new('S_UDT')
             rel(s_udt, s_dt, 17)
             rel(s_udt, dt(base), 18)
+    # -- user data types, each defined (R18) over a core type or over the one declared before it ---------------
+    for uname, over in USER_TYPES:
+        s_dt = m.new('S_DT', Name=uname)
+        pe(s_dt, 3)
+        s_udt = m.new('S_UDT')
+        rel(s_udt, s_dt, 17)
+        rel(s_udt, dt(over), 18)
     enums = m.select_many('S_ENUM')
     second = [e for e in enums if e.Name == ENUM[1][1]][0]
     first = [e for e in enums if e.Name == ENUM[1][0]][0]
@@ -348,7 +381,7 @@ def build_host(m, variant=None):
                 if prev is not None:
                     rel(prev, s_sparm, 54, 'precedes')
                 prev = s_sparm
-            if name == 'f' and own:
+            if name == HOME_CALLABLE['function'] and own:
                 host.homes['function'] = s_sync
 
         # -- external entity with bridges ------------------------------------------------------------
@@ -367,12 +400,12 @@ def build_host(m, variant=None):
                 if prev is not None:
                     rel(prev, s_bparm, 55, 'precedes')
                 prev = s_bparm
-            if name == 'b' and own:
+            if name == HOME_CALLABLE['bridge'] and own:
                 host.homes['bridge'] = s_brg
 
         # -- operations of A ----------------------------------------------------------------------------
         prev_tfr = None
-        for numb, name in enumerate(['op', 'cop', 'cop2'], 1):
+        for numb, name in enumerate(OPERATION_ORDER, 1):
             ret, instance_based, params = OPERATIONS[name]
             o_tfr = m.new('O_TFR', Name=name, Instance_Based=int(instance_based), Numb=numb, Suc_Pars=0)
             rel(o_tfr, objs['A'], 115)
@@ -388,7 +421,7 @@ def build_host(m, variant=None):
                 if prev is not None:
                     rel(prev, o_tparm, 124, 'precedes')
                 prev = o_tparm
-            if name == 'op' and own:
+            if name == HOME_CALLABLE['operation'] and own:
                 host.homes['operation'] = o_tfr
 
 
@@ -426,6 +459,14 @@ def build_host(m, variant=None):
 # and 'claim' (the typing rule of the C06 statement that applies, or None), and
 # variable references with 'var'.  Raises IllFormed for programs outside the
 # quantifier (unresolved names, ill-typed operands, break outside a loop...).
+#
+# User data types: a value declared with one (attribute, parameter, return
+# value) has exactly that type, and so has the transient it is first assigned
+# to.  For well-formedness a user data type stands for the core type underneath
+# it (base_t): such a value may be an operand next to core-typed ones, a
+# parameter value, and be assigned to something declared with the core type or
+# with another user data type over the same core type -- the thing assigned to
+# keeps the type it was declared with.
 # ---------------------------------------------------------------------------
 
 class IllFormed(Exception):
@@ -535,13 +576,20 @@ class Analysis(object):
             name = self.f(l, 'variable_name')
             v = scope.lookup(name)
             if v is None:
-                v = self.declare(scope, name, tr, 0, r, bool(r.get('claim')) or class_of(tr) is not None)
+                claimed = bool(r.get('claim')) or class_of(tr) is not None
+                if r.get('var') is not None and not r['var'].claimed:
+                    claimed = False         # a copy of a variable whose type is not claimed: relative to the observed type again
+                v = self.declare(scope, name, tr, 0, r, claimed)
                 l['declares'] = True
                 self.features.add('assign:declares')
+                if v.claimed and base_t(tr) != tr:
+                    self.features.add('udt:declares-transient')
                 if class_of(tr):
                     self.features.add('assign:migrates-' + ('set' if class_of(tr)[1] else 'instance'))
-            elif v.dims or v.t != tr:
+            elif v.dims or base_t(v.t) != base_t(tr):
                 raise IllFormed('assignment changes the type of %s' % name)
+            elif v.t != tr:
+                self.features.add('udt:assigned-across-types')
             l['var'] = v
             l['t'] = v.t
             l['claim'] = 'variable'
@@ -559,8 +607,10 @@ class Analysis(object):
                 (attr[0][2] == 'derived' and self.home == 'attribute' and h['cls'] == 'SelfAccessNode')
             if not ok:
                 raise IllFormed('attribute is not writable here')
-            if attr[0][1] != tr:
+            if base_t(attr[0][1]) != base_t(tr):
                 raise IllFormed('attribute assigned a value of another type')
+            if base_t(attr[0][1]) != attr[0][1]:
+                self.features.add('udt:attribute-write')
             l['t'] = attr[0][1]
             l['claim'] = 'attribute'
             self.features.add('assign:attribute')
@@ -582,7 +632,7 @@ class Analysis(object):
                 v = self.declare(scope, name, tr, len(idx), r, bool(r.get('claim')))
                 n['declares'] = True
                 self.features.add('assign:declares-array')
-            elif v.dims != len(idx) or v.t != tr:
+            elif v.dims != len(idx) or base_t(v.t) != base_t(tr):
                 raise IllFormed('array element assignment does not fit the array')
             for x in idx:
                 if self.expr(x, scope) != 'integer':
@@ -813,6 +863,8 @@ class Analysis(object):
             raise IllFormed('array read as a whole')
         e['var'] = v
         e['claim'] = 'variable'
+        if v.claimed and base_t(v.t) != v.t:
+            self.features.add('udt:transient-read')
         return v.t
 
     def e_SelfAccessNode(self, e, scope):
@@ -834,7 +886,14 @@ class Analysis(object):
             raise IllFormed('no such parameter in this home')
         self.features.add('param-read')
         e['claim'] = 'parameter'
+        self.udt_feature(p[0], 'param-read')
         return p[0]
+
+    def udt_feature(self, t, what):
+        if base_t(t) != t:
+            self.features.add('udt:' + what)
+            if base_t(t) != dict(USER_TYPES)[t]:
+                self.features.add('udt:two-level')
 
     def e_FieldAccessNode(self, e, scope):
         h = e['fields']['handle']
@@ -848,6 +907,7 @@ class Analysis(object):
             raise IllFormed('unknown attribute')
         e['claim'] = 'attribute'
         self.features.add('attribute-read:' + attr[0][2])
+        self.udt_feature(attr[0][1], 'attribute-read')
         return attr[0][1]
 
     def e_IndexAccessNode(self, e, scope):
@@ -924,7 +984,7 @@ class Analysis(object):
                 raise IllFormed('%s of a non-handle' % op)
             e['claim'] = 'cardinality' if op == 'cardinality' else 'boolean-operator'
             return 'integer' if op == 'cardinality' else 'boolean'
-        if t not in NUMERIC:
+        if base_t(t) not in NUMERIC:
             raise IllFormed('sign of a non-number')
         return t                                    # arithmetic: not claimed
 
@@ -937,6 +997,11 @@ class Analysis(object):
             if x['cls'].endswith('InvocationNode'):
                 self.invocation_feature(x, 'expr')
         self.features.add('binary:' + op)
+        if tl != tr and base_t(tl) == base_t(tr):
+            self.features.add('udt:operand-next-to-' + ('core-type' if base_t(tl) in (tl, tr) else 'user-type'))
+        # operands of a user data type count as operands of its core type; the results of arithmetic are not claimed (the
+        # translation gives them the type of the left operand), comparisons are boolean whatever is compared
+        tl, tr = base_t(tl), base_t(tr)
         if op in ('and', 'or'):
             if tl != 'boolean' or tr != 'boolean':
                 raise IllFormed('boolean operator on non-booleans')
@@ -977,8 +1042,11 @@ class Analysis(object):
             raise IllFormed('parameters do not match the declaration')
         for p in ps:
             x = p['fields']['expression']
-            if self.expr(x, scope) != dict(declared)[self.f(p, 'name')]:
+            tx, td = self.expr(x, scope), dict(declared)[self.f(p, 'name')]
+            if base_t(tx) != base_t(td):
                 raise IllFormed('parameter value of another type')
+            if base_t(tx) != tx:
+                self.features.add('udt:argument:' + ('same-type' if tx == td else 'of-core-type' if td == base_t(td) else 'of-other-user-type'))
             if x['cls'].endswith('InvocationNode'):
                 self.invocation_feature(x, 'expr')
         if len(names) >= 2 and names != [n for n, _ in declared]:
@@ -991,6 +1059,7 @@ class Analysis(object):
             raise IllFormed('unknown function')
         self.params(e, scope, FUNCTIONS[name][1])
         e['kind'] = 'function'
+        self.udt_feature(FUNCTIONS[name][0], 'invocation:function')
         return FUNCTIONS[name][0]
 
     def e_ImplicitInvocationNode(self, e, scope):
@@ -998,10 +1067,12 @@ class Analysis(object):
         if ns == EE and name in BRIDGES and e['cls'] != 'ClassInvocationNode':
             self.params(e, scope, BRIDGES[name][1])
             e['kind'] = 'bridge'
+            self.udt_feature(BRIDGES[name][0], 'invocation:bridge')
             return BRIDGES[name][0]
         if ns == 'A' and name in OPERATIONS and not OPERATIONS[name][1] and e['cls'] != 'BridgeInvocationNode':
             self.params(e, scope, OPERATIONS[name][2])
             e['kind'] = 'class-operation'
+            self.udt_feature(OPERATIONS[name][0], 'invocation:class-operation')
             return OPERATIONS[name][0]
         raise IllFormed('unknown bridge or class operation')
 
@@ -1018,6 +1089,7 @@ class Analysis(object):
             raise IllFormed('unknown instance operation')
         self.params(e, scope, OPERATIONS[name][2])
         e['kind'] = 'instance-operation'
+        self.udt_feature(OPERATIONS[name][0], 'invocation:instance-operation')
         return OPERATIONS[name][0]
 
 
@@ -1038,13 +1110,15 @@ def ASSIGN(lhs, rhs, explicit=False):
     return ('assign', V(lhs) if isinstance(lhs, str) else lhs, rhs, explicit)
 
 
-PRELUDE_ORDER = ['a', 'a2', 'b', 'c', 'aset', 'bset', 'i', 'j', 'r', 's', 't', 'e', 'v', 'w', 'md']
+PRELUDE_ORDER = ['a', 'a2', 'b', 'c', 'aset', 'bset', 'i', 'j', 'r', 's', 't', 'e', 'v', 'w', 'md', 'st', 'lb']
 PRELUDE = {
     'a': ('create', 'a', 'A'), 'a2': ('create', 'a2', 'A'), 'b': ('create', 'b', 'B'), 'c': ('create', 'c', 'C'),
     'aset': ('selfrom', 'many', 'aset', 'A', None, True), 'bset': ('selfrom', 'many', 'bset', 'B', None, True),
     'i': ASSIGN('i', I(1)), 'j': ASSIGN('j', I(2)), 'r': ASSIGN('r', ('real', '1.5')), 's': ASSIGN('s', ('str', 's')),
     't': ASSIGN('t', ('bool', 'true')), 'e': ASSIGN('e', ('enum', 'Color', 'Red')), 'md': ASSIGN('md', ('enum', 'Mode', 'Off')),
     'v': ASSIGN(('index', V('v'), I(2)), I(0)), 'w': ASSIGN(('index', ('index', V('w'), I(1)), I(1)), I(0)),
+    # transients of the user data types Stamp and Label (declared by their first assignment: the read of an attribute)
+    'st': ASSIGN('st', ('field', V('a'), 'When')), 'lb': ASSIGN('lb', ('field', V('a'), 'Tag')),
 }
 
 
@@ -1852,6 +1926,70 @@ def family_statements(tier):
     return S
 
 
+def usertype_sources():
+    '''(expression, declared type) -- every way a value of a user data type enters a body: attribute reads (through a handle
+    and through self), parameter reads, the values of a function, a bridge, a class-based and an instance-based operation.  $2
+    is the Stamp parameter of every home with parameters; $3 is declared Label (function, bridge) or Tick (operation): it is
+    listed under both types and the analysis keeps the forms that are well-typed in the home.'''
+    return [(F('a', 'When'), 'Stamp'), (F('a', 'Tag'), 'Label'), (F('a', 'Beat'), 'Tick'), (('param', '$2'), 'Stamp'),
+            (F('b', 'When'), 'Tick'), (F(SELF, 'When'), 'Stamp'), (('param', '$3'), 'Label'), (('param', '$3'), 'Tick'),
+            (('fcall', 'stamp', [('w', I(1))]), 'Stamp'), (('ncall', 'EE', 'title', [('l', STR)]), 'Label'),
+            (('ncall', 'A', 'tick', []), 'Tick'), (('icall', V('a'), 'mark', []), 'Stamp')]
+
+
+def family_usertypes(tier):
+    '''Programs of the statement family about user data types.  For every source of usertype_sources(): the value is the
+    FIRST assignment to a transient (which thereby has the user data type), the transient is copied, used next to core-typed
+    operands (arithmetic, comparison, sign), passed as a parameter value (to a parameter of its own type, of the core type
+    and of another user data type over the same core type), written back to attributes (of its type and of the core type) and
+    assigned again; the other way round a transient first assigned a core-typed value keeps the core type; and the value is used
+    directly.  For the first four sources (a one-level type over integer, one over string, the two-level one, a parameter)
+    also: the explicit "assign", blocks, loops, an array, a where clause, return values and the invocation statement forms.'''
+    P = []
+    add = lambda *stmts: P.append(list(stmts))
+    attr_of = {'Stamp': 'When', 'Label': 'Tag', 'Tick': 'Beat'}
+    for n, (src, ty) in enumerate(usertype_sources()):
+        num = base_t(ty) == 'integer'
+        K, kv, core_attr, other = (I(1), V('i'), 'Num', V('st')) if num else (STR, V('s'), 'Name', V('lb'))
+        u, u2 = V('u'), V('u2')
+        same = ('fcall', 'stamp', [('w', u)]) if num else ('ncall', 'EE', 'title', [('l', u)])            # Stamp / Label parameter
+        core = ('fcall', 'h', [('x', u)]) if num else ('ncall', 'EE', 'b', [('p', I(1)), ('q', u)])       # integer / string parameter
+        add(ASSIGN('u', src))
+        add(ASSIGN('u', src), ASSIGN('u2', u), ASSIGN('n', BIN('+', u, K)), ASSIGN('q', BIN('==', u2, K)), ASSIGN('m', BIN('+', kv, u2)))
+        add(ASSIGN('u', src), ASSIGN('n', core), ('call', None, same), ASSIGN(F('a', attr_of[ty]), u), ASSIGN(F('a', core_attr), u))
+        add(ASSIGN('u', src), ASSIGN('u', K), ASSIGN('u2', u))
+        add(ASSIGN('n', K), ASSIGN('n', src), ASSIGN('m', V('n')))
+        add(ASSIGN(F('a', core_attr), src), ASSIGN('q', BIN('!=', src, kv)), ('return', BIN('+', src, K)))
+        add(ASSIGN('u', src), ASSIGN('q', BIN('==', u, other)), ASSIGN('u2', same), ASSIGN('q2', BIN('<', u2, other)))
+        if n >= 4:
+            continue
+        add(ASSIGN('u', src, True), ASSIGN('u2', u, True))
+        add(('if', V('t'), [ASSIGN('u', src), ASSIGN('u2', u)], [(BIN('==', src, K), [ASSIGN('u', K), ASSIGN('u2', u)])],
+             [ASSIGN('u', other), ASSIGN('u', src)], [False, False]), ASSIGN('u', TRUE))
+        add(ASSIGN('u', src), ('while', BIN('<', u, K), [ASSIGN('u2', u), ASSIGN('u', u2), ('break',)], False), ('return', u))
+        add(ASSIGN('u', src), ('foreach', 'k', 'aset', [ASSIGN(F('k', attr_of[ty]), u), ASSIGN('u2', F('k', attr_of[ty]))], False))
+        add(ASSIGN(('index', V('arr'), I(1)), src), ASSIGN('z', ('index', V('arr'), I(0))), ASSIGN(('index', V('arr'), I(0)), K))
+        add(ASSIGN('u', src), ('selfrom', 'any', 'n', 'A', BIN('==', F(SEL, attr_of[ty]), u), True),
+            ('selrel', 'many', 'ns', V('a'), [('B', 'R1', None)], BIN('!=', F(SEL, 'When'), u) if num else BIN('!=', u, STR)))
+        add(('return', src))
+        add(ASSIGN('u', src), ('return', u))
+        if num:
+            add(ASSIGN('u', src), ASSIGN('n', UN('-', u)), ASSIGN('m', BIN('%', u, I(2))), ASSIGN('d', BIN('/', R15, u)))
+    # a transient declared by the value of an invocation written with its statement keyword
+    add(('callassign', 'bridge', V('u'), ('ncall', 'EE', 'title', [('l', STR)])), ASSIGN('u2', V('u')))
+    add(('callassign', 'transform', V('u'), ('ncall', 'A', 'tick', [])), ASSIGN('u2', V('u')))
+    add(('callassign', 'transform', V('u'), ('icall', V('a'), 'mark', [])), ASSIGN('u2', V('u')))
+    # values of user data types as the parameter values of the callables declared with them, nested
+    add(ASSIGN('u', ('fcall', 'stamp', [('w', ('fcall', 'stamp', [('w', F('a', 'Beat'))]))])), ASSIGN('u2', V('u')))
+    add(('call', None, ('fcall', 'main', [('x', F('a', 'When')), ('y', R15), ('w', ('ncall', 'A', 'tick', [])), ('l', F('a', 'Tag'))])))
+    add(('call', None, ('ncall', 'EE', 'relay', [('l', V('lb')), ('w', V('st')), ('q', V('lb')), ('p', V('st'))])))
+    add(ASSIGN('n', ('icall', V('a'), 'run', [('q', I(1)), ('r', TRUE), ('w', ('icall', V('a'), 'mark', [])), ('k', F('b', 'When'))])))
+    # the same attribute name declared with two types in two classes
+    add(ASSIGN('u', F('a', 'When')), ASSIGN('u2', F('b', 'When')), ASSIGN('q', BIN('==', V('u'), V('u2'))))
+    add(ASSIGN('u', F('b', 'When')), ASSIGN('u2', F('a', 'When')), ASSIGN(F('b', 'When'), V('u2')), ASSIGN(F('a', 'When'), V('u')))
+    return P
+
+
 # backslashes (also last, and in front of what would be an escape elsewhere), control characters (tab, other C0 / C1 ones, a lone
 # carriage return), characters outside ASCII (Latin-1, BMP, the line / paragraph separators, beyond the BMP), format directives
 STRING_LITERALS = ['C:\\users\\x1\\', '\\n \\t \\u0041 \\x41 \\\\ %s %(a)s {0} {}', 'tab\there \x01\x1f\x7f\x85',
@@ -2102,7 +2240,8 @@ def tolist(x):
 def all_tasks(tier, seed=0):
     '''Every (program, home) task of the tier, in a deterministic order; plus the bounds dictionary.'''
     fams = []
-    fams.append(('statements', family_statements(tier)))
+    usertypes = family_usertypes(tier)
+    fams.append(('statements', family_statements(tier) + usertypes))
     fams.append(('expressions', family_expressions(tier)))
     seqs, seq_bounds = family_sequences(tier)
     fams.append(('sequences', seqs))
